@@ -457,6 +457,7 @@ theorem async_get_unique_eq (s : DNSCache) (e : Rec) (h : CInv lower s) :
   | none => rfl
   | some st => simp only [Option.map_some, Option.bind_some, lookup_keys lower st e (storeOk_of_get lower h.c hg).kv]
 
+set_option linter.unusedSimpArgs false in
 /-- `async_all_by_details` -/
 theorem async_all_by_details_eq (s : DNSCache) (name : String) (ty cls : Nat) :
     s.async_all_by_details lower name ty cls = Cache.asyncAllByDetails lower (absC s) name ty cls := by
@@ -465,13 +466,11 @@ theorem async_all_by_details_eq (s : DNSCache) (name : String) (ty cls : Nat) :
   cases hg : PyDict.get? strEq s.cache (lower name) with
   | none => rfl
   | some st =>
-    simp only [Option.getD_some, bind]
-    -- the accumulating loop of the source; a comprehension in its place is the model's filter as it stands
-    first
-      | rfl
-      | (rw [forIn_id_yield _ _ _ (fun acc x => if (decide (ty = x.type) && decide (cls = x.class_)) then acc ++ [id x] else acc)
+    -- the accumulating loop of the source; a comprehension in its place is the model's filter as it stands (closed by `simp only`)
+    simp only [Option.getD_some, bind] <;>
+      (rw [forIn_id_yield _ _ _ (fun acc x => if (decide (ty = x.type) && decide (cls = x.class_)) then acc ++ [id x] else acc)
           (by intro x b; split <;> rfl), foldl_collect]
-         simp [pure])
+       simp [pure])
 
 /-- `async_entries_with_name`: the keys of the returned dict are the model's list -/
 theorem async_entries_with_name_eq (s : DNSCache) (name : String) :
